@@ -44,7 +44,15 @@ type Keys struct {
 // or directly returns if the key stack still/already has available keys.
 // It returns an error when the input stream has ended or cannot be read.
 func WaitAvailableKeys(keys *Keys, cfg *inputrc.Config) error {
+	first := keys.cfg == nil
 	keys.cfg = cfg
+
+	// Keys typed before the shell waited for some for the first time have been read
+	// along with the terminal's answers to its queries, when the configuration was
+	// not known yet: they must be prepared like those read from now on.
+	if first && len(keys.buf) > 0 {
+		keys.buf = keys.convertInput(keys.buf)
+	}
 
 	// The macro engine might have fed some keys
 	if len(keys.macroKeys) > 0 {
